@@ -9,7 +9,15 @@ EXTENDS Switches, Json
 HeapExprs == {P_Vec(u8), str, P_Box(u32), P_BTreeMap(u8, str), P_BTreeSet(u16), P_Heap(u8), P_VecDeque(bool), P_Cow(str), P_Vec(P_Vec(str)),
               P_Opt(P_Box(A0("U"))), P_Adt("G", <<str>>), P_Tup(<<P_Vec(u8), P_Compact(u32)>>), P_Bits("u8", "Lsb0"), P_Compact(u64),
               P_Arr(P_BTreeMap(str, P_Vec(u8)), 2), P_Res(str, P_Vec(bool))}
-Programs == {G1aCase(e, sh, FALSE) : e \in HeapExprs, sh \in {"named", "vunnamed"}} \cup {G1aCase(u32, "named", TRUE)} \cup G1c(0)
+\* generic definitions whose parameters need a marker: field-less, named, unnamed, enum
+MarkerProg == [fam |-> "G9m", prog |-> Program(<<Struct("S", Mod, <<>>, <<SField("a", P_Adt("UnitPh", <<u8>>)), SField("b", P_Adt("NamedPh", <<u8, bool>>)),
+                                                                         SField("c", P_Adt("TupPh", <<u16>>)), SField("d", P_Adt("EnumPh", <<str>>))>>),
+                                                 Struct("UnitPh", Mod, <<Param("T")>>, <<SField("", P_Phantom(T))>>),
+                                                 Struct("NamedPh", Mod, <<Param("T"), Param("U")>>, <<SField("a", T), SField("p", P_Phantom(U))>>),
+                                                 Struct("TupPh", Mod, <<Param("T")>>, <<SField("", u8), SField("", P_Phantom(T))>>),
+                                                 Enum("EnumPh", Mod, <<Param("T")>>, <<Variant("A", 0, <<SField("", u8)>>), Variant("B", 1, <<SField("p", P_Phantom(T))>>)>>)>>, <<>>),
+               roots |-> <<A0("S")>>]
+Programs == {G1aCase(e, sh, FALSE) : e \in HeapExprs, sh \in {"named", "vunnamed"}} \cup {G1aCase(u32, "named", TRUE), MarkerProg} \cup G1c(0)
 
 VARIABLES c, S
 Init == /\ c \in Programs
